@@ -16,72 +16,13 @@ Idioms accepted for each test are listed in the tables / functions below, one co
 """
 import re
 from .common import *
-from .C09 import root_of, agg_def, seq_sources, pushes_into, _whole_defs, _callmap, REF_TRANSPARENT
+from .C09 import root_of, agg_def, seq_sources, pushes_into, created_empty, fresh_id, eagerise, _whole_defs, _callmap, REF_TRANSPARENT
 
 VIEW = 'norm'
 
 INST = 'v1::Instance'; DV = 'v1::DecisionVariable'; BOUND = 'v1::Bound'
 # hands on the same sequence: vec.into_iter() / vec.iter() / &vec
 SEQ_TRANSPARENT = re.compile(r'::(into_iter|iter|as_ref|deref|as_slice|by_ref)(::<.*>)?$')
-
-
-# ---------------------------------------------------------------------------------------------------
-# normal-form extension local to this module (see notes): a lazily mapped iterator handed to a crate
-# function that drains it in one complete `for` loop  ≡  collect first, then hand over the Vec
-def drains_param(ctx, cb, p):
-    """callee body `cb` walks parameter p in a `for` loop that is only left when the iterator is exhausted"""
-    for lo in T.for_loops(cb):
-        nextc, header, some_bb, none_bb, blocks = lo
-        leaves = seq_sources(cb, nextc.args[0])
-        if leaves != [('other', 'parameter _%d' % p, True)]: continue
-        early = False
-        for b in blocks:
-            for s in cb.succ(b):
-                if s in blocks or cb.blocks[s]['cleanup'] or s == none_bb: continue
-                if cb.is_panic_block(s): continue
-                early = True
-        if not early: return True
-    return False
-
-
-def eagerise(ctx, body):
-    """`g(it.map(K), ..)`, g a crate function draining that parameter  ->  explicit loop pushing K(item) + `g(vec, ..)`"""
-    from .. import normalize as NZ
-    N = NZ.Normalizer(ctx.F, None, True)
-    rw = NZ.Rewriter(body.d); rw.promoted_of = N._promoted_of
-    done_any = False
-    for bi in range(len(rw.blocks)):
-        b = rw.blocks[bi]; t = b['term']
-        if b['cleanup'] or t['k'] != 'call' or t.get('synthetic') or t['t'] < 0: continue
-        cb = ctx.F.bodies.get(t.get('rp') or t.get('fp') or '')
-        if cb is None or cb.kind != 'fn': continue
-        for ai, a in enumerate(t['args']):
-            if a['k'] not in ('move', 'copy') or a['pl']['p']: continue
-            try:
-                base, chain = N._walk_chain(rw, a['pl']['l'])
-            except Exception:
-                continue
-            if not chain or not drains_param(ctx, cb, ai + 1): continue
-            span = t.get('span'); line = (span or {}).get('lo', 0)
-            orig = dict(t)
-            N._strip_adaptors(rw, chain)
-            it = rw.new_local('?iter'); coll = rw.new_local('std::vec::Vec<?>')
-            b['st'].append(NZ._use(it, a, line))
-            head = rw.new_block(); done = rw.new_block()
-            o, some = N._emit_next(rw, head, it, span, done)
-            entry, last, item_op, cont = N._emit_adaptors(rw, chain, NZ._mv(o, NZ.SOME0), span, head, done)
-            rw.goto(some, entry)
-            b['term'] = NZ.mk_call('std::vec::Vec::<T>::new', 'std::vec::Vec::<T>::new', None, 'std::vec::Vec::<T>', 'new', [], coll, head, span)
-            N._emit_push(rw, last, coll, 'Vec', item_op, span, cont)
-            t2 = dict(orig); t2['args'] = [(NZ._mv(coll) if k == ai else x) for k, x in enumerate(orig['args'])]
-            rw.blocks[done]['term'] = t2
-            done_any = True
-            break
-    if not done_any: return body
-    from ..facts import Body
-    d = dict(rw.d); d['fn'] = body.name + '#eager'; d['parent'] = body.parent
-    nb = Body(d); nb.facts = ctx.F
-    return nb
 
 
 # ---------------------------------------------------------------------------------------------------
@@ -234,6 +175,21 @@ def bool_tests(body, local, want_true, what):
     return out
 
 
+def discr_reads(body):
+    """value local -> [discriminant statements reading it], where the place read is resolved through copies and
+    tuple packing: `match (a, b) { (A, Some(x)) => .. }` reads the discriminants of `a` and of `b`"""
+    idx = getattr(body, '_c12_discr', None)
+    if idx is None:
+        idx = {}
+        for bi, st in body.stmts():
+            if st['rv']['k'] != 'discr': continue
+            v = unwrap_operand(body, {'k': 'copy', 'pl': st['rv']['pl']})
+            if v['k'] in ('copy', 'move') and [q for q in v['pl']['p'] if q != '*'] == []:
+                idx.setdefault(v['pl']['l'], []).append((bi, st))
+        body._c12_discr = idx
+    return idx
+
+
 def option_tests(body, local, what, depth=0):
     """tests deciding on the None / Err of the Option / Result held in `local`:
          `x?`, `x.with_context(..)?`, `x.ok_or(..)?`            -> the Break arm fails
@@ -254,15 +210,16 @@ def option_tests(body, local, what, depth=0):
                 out += option_tests(body, x.dst['l'], what, depth + 1)
         elif kind == 'stmt':
             rv = x['rv']
-            if rv['k'] == 'discr' and [p for p in rv['pl']['p'] if p != '*'] == []:
-                for k3, b3, sw in body.uses.get(x['dst']['l'], ()):
-                    if k3 == 'switch':
-                        m = {v: t for v, t in sw['ts']}
-                        out.append(Test(b3, [m.get(1 - fail_variant, sw['else'])], [m.get(fail_variant, sw['else'])], what + ' match'))
+            if rv['k'] == 'discr': pass            # see discr_reads below
             elif rv['k'] == 'use' and not x['dst']['p'] and _plain(rv['ops'][0]) and rv['ops'][0]['pl']['l'] == local:
                 out += option_tests(body, x['dst']['l'], what, depth + 1)
             elif rv['k'] == 'ref' and not x['dst']['p'] and rv['pl']['p'] in ([], ['*']):
                 out += option_tests(body, x['dst']['l'], what, depth + 1)
+    for bi, st in discr_reads(body).get(local, ()):
+        for k3, b3, sw in body.uses.get(st['dst']['l'], ()):
+            if k3 == 'switch':
+                m = {v: t for v, t in sw['ts']}
+                out.append(Test(b3, [m.get(1 - fail_variant, sw['else'])], [m.get(fail_variant, sw['else'])], what + ' match'))
     return out
 
 
@@ -305,8 +262,80 @@ def unwrap_operand(body, op, depth=24):
     return op
 
 
+def xpath(body, op, depth=24):
+    """fields crossed on the way back from an operand to where it was read from (templates.access_path, but through
+    tuple packing / payload projections, see unwrap_operand)"""
+    fields = []
+    for _ in range(depth):
+        op = unwrap_operand(body, op)
+        if op['k'] not in ('copy', 'move'): break
+        pl = op['pl']; fields = fields_of_place(pl) + fields; l = pl['l']
+        if 1 <= l <= body.argc: break
+        defs = _whole_defs(body, l)
+        if len(defs) != 1: break
+        k, bi, d = defs[0]
+        if k == 'stmt' and d['rv']['k'] == 'ref': op = {'k': 'copy', 'pl': d['rv']['pl']}; continue
+        if k == 'call' and T.TRANSPARENT.search(T.strip_generics_tail(d['r'] or d['f'])) and d['args'] and d['args'][0]['k'] in ('copy', 'move'):
+            op = d['args'][0]; continue
+        break
+    return fields
+
+
 def xexpr(body, op, depth=18):
     return T.expr(body, unwrap_operand(body, op), depth)
+
+
+def range_sig(body, lo):
+    """what a loop counts over: ('0_usize', root local of the upper end) for `for i in 0..n`, else None"""
+    r = root_of(body, lo[0].args[0], SEQ_TRANSPARENT)[0]
+    a = agg_def(body, r, 'ops::Range') if r is not None else None
+    if a is None: return None
+    ops = a[1]['rv']['ops']
+    lo_ = ops[0]['v'] if ops[0]['k'] == 'const' else 'l%s' % root_of(body, ops[0])[0]
+    hi = ops[1]['v'] if ops[1]['k'] == 'const' else 'l%s' % root_of(body, ops[1])[0]
+    return '%s..%s' % (lo_, hi)
+
+
+def canon(body, e, floops, depth=10):
+    """an expression as a string in which the item of a loop is named after the sequence the loop runs over
+         ITEM<0..n>          item of any `for i in 0..n` (two loops over the same range name the same values: loop fission)
+         E[ITEM<0..n>]       item of a loop over a vector that was filled, one push per iteration of a loop over 0..n,
+                             with E (ids computed once, kept in a vector, walked again)
+       commutative `+` / `*` are ordered, overflow-checked arithmetic is plain arithmetic"""
+    if depth <= 0: return '…'
+    k = e[0]
+    rec = lambda x: canon(body, x, floops, depth - 1)
+    if k == 'proj' and e[1][0] == 'call' and len(e[1]) > 4:
+        lo = next((l for l in floops if l[0].bb == e[1][4]), None)
+        if lo is not None and e[2][:1] and e[2][0][0].endswith('Option::Some'):
+            rest = ''.join('.' + f for a, f in e[2][1:])
+            sig = range_sig(body, lo)
+            if sig is not None: return 'ITEM<%s>%s' % (sig, rest)
+            crossed = set(); leaves = seq_sources(body, lo[0].args[0], True, crossed)
+            if 'enumerate' in crossed and rest.startswith('.1') and 'zip' not in crossed: rest = rest[2:]      # (position, element): the element
+            if len(leaves) == 1 and leaves[0][0] == 'vec' and leaves[0][2] and not rest:
+                V = leaves[0][1]; ps = pushes_into(body, V)
+                if created_empty(body, V) and len(ps) == 1:
+                    l1 = next((l for l in sorted(floops, key=lambda l: len(l[4])) if ps[0].bb in l[4]), None)
+                    if l1 is not None and T.must_pass(body, l1[2], {l1[1]}, {ps[0].bb}):
+                        return canon(body, xexpr(body, ps[0].args[1]), floops, depth - 1)
+            return 'ITEM<loop@bb%d>%s' % (lo[0].bb, rest)
+    if k == 'proj' and e[1][0] == 'bin' and e[1][1].endswith('WithOverflow') and [f for a, f in e[2]] == ['0']:
+        return rec(('bin', e[1][1].replace('WithOverflow', ''), e[1][2], e[1][3]))
+    if k == 'const': return e[1]
+    if k == 'place': return '_%d%s' % (e[1], ''.join('.' + f for a, f in e[2]))
+    if k == 'local': return '_%d' % e[1]
+    if k == 'bin':
+        a, b = rec(e[2]), rec(e[3]); op = e[1].replace('WithOverflow', '')
+        if op in ('Add', 'Mul'): a, b = sorted((a, b))
+        return '(%s %s %s)' % (a, op, b)
+    if k == 'un': return '%s(%s)' % (e[1], rec(e[2]))
+    if k == 'cast': return '(%s as %s)' % (rec(e[2]), e[1])
+    if k == 'call': return '%s(%s)' % (e[1], ', '.join(rec(a) for a in e[3]))
+    if k == 'agg': return '%s{%s}' % (e[1].split('::')[-1], ', '.join(rec(a) for a in e[2]))
+    if k == 'proj': return '%s%s' % (rec(e[1]), ''.join('.' + f for a, f in e[2]))
+    if k == 'discr': return 'discr(%s)' % rec(e[1])
+    return str(e)[:40]
 
 
 def is_zero(body, o):
@@ -387,29 +416,6 @@ def width_tests(ctx, body):
     return nonneg, zero_arms
 
 
-# the largest defined id, one idiom per entry (all on an ordered set / map of the ids, or an explicit maximum)
-MAX_IDIOMS = [
-    r'BTreeSet::<u64>::(last|pop_last)$',                                                  # ids.last()
-    r'BTreeMap::<u64, .*>::(last_key_value|pop_last|last_entry)$',                         # map.last_key_value()
-    r'btree_set::(Iter|IntoIter)<.*> as std::iter::DoubleEndedIterator>::next_back$',      # ids.iter().next_back() / into_iter().next_back()
-    r'btree_set::(Iter|IntoIter)<.*> as std::iter::Iterator>::(last|max)$',                # ids.iter().last() (ascending order) / .max()
-    r'Rev<std::collections::btree_set::(Iter|IntoIter)<.*>> as std::iter::Iterator>::next$',  # ids.iter().rev().next()
-    r'Iterator>::(max|max_by_key)(::<.*>)?$',                                              # any_iter_of_ids.max()
-    r'Ord>::max$',                                                                         # fold / loop with a.max(b)
-]
-
-
-def fresh_id(ctx, rule, body, op, what, site):
-    """new ids derive from the largest defined decision-variable id plus one"""
-    s = slice_op(ctx, body, op)
-    probs = []
-    if not s.has_field(DV, 'id'): probs.append('does not depend on the defined decision-variable ids')
-    if not any(s.has_call(r) for r in MAX_IDIOMS): probs.append('does not take the maximum of the defined ids')
-    if not s.has_const(r'^1_u64$'): probs.append('no `+ 1`')
-    ctx.check(not probs, rule, 'T-CARRY', body.name.replace('#eager', ''), '%s: %s' % (what, '; '.join(probs)), site)
-    return s
-
-
 def is_dv_field_leaf(leaf):
     k, key, _ = leaf
     return k == 'field' and key[0] == 1 and [f for a, f in key[1]] == ['decision_variables']
@@ -486,10 +492,11 @@ def check(ctx):
             ktests += bool_tests(body, c.dst['l'], c.item == 'eq', 'kind() == Integer')
     if INTEGER is not None:
         # `matches!(v.kind(), Kind::Integer)` / `match v.kind() { Kind::Integer => .., _ => error }`
-        for bi, st in body.stmts():
-            rv = st['rv']
-            if rv['k'] != 'discr' or not body.locals[rv['pl']['l']].lstrip('&').endswith('decision_variable::Kind'): continue
-            if not from_kind(ctx.S.slice_operand(body, {'k': 'copy', 'pl': rv['pl']})): continue
+        # (the scrutinee may be packed with others: `match (v.kind(), v.bound.as_ref()) { (Kind::Integer, Some(b)) => .. }`)
+        for vl, reads in sorted(discr_reads(body).items()):
+          if not body.locals[vl].lstrip('&').endswith('decision_variable::Kind'): continue
+          if not from_kind(ctx.S.slice_operand(body, {'k': 'copy', 'pl': {'l': vl, 'p': []}})): continue
+          for bi, st in reads:
             for k3, b3, sw in body.uses.get(st['dst']['l'], ()):
                 if k3 != 'switch': continue
                 m = {v: t for v, t in sw['ts']}
@@ -497,6 +504,18 @@ def check(ctx):
                 fails = [t for v, t in sw['ts'] if v != INTEGER] + [sw['else']]
                 fails = [f for f in fails if body.blocks[f]['term']['k'] != 'unreachable'] or [sw['else']]
                 ktests.append(Test(b3, [m[INTEGER]], fails, 'match kind() { Integer => .. }'))
+    if INTEGER is not None:
+        # `v.kind == Kind::Integer as i32` / `!=`: the raw prost field against the discriminant of Integer
+        for bi, st in body.stmts():
+            rv = st['rv']
+            if rv['k'] != 'bin' or rv['op'] not in ('Eq', 'Ne') or rv.get('ty') != 'i32': continue
+            for x, y in ((rv['ops'][0], rv['ops'][1]), (rv['ops'][1], rv['ops'][0])):
+                if x['k'] not in ('copy', 'move') or (DV, 'kind') not in xpath(body, x): continue
+                consts = [n[1] for n in T.expr_walk(T.expr(body, y, depth=8))  if n[0] == 'const'] if y['k'] != 'const' else [y['v']]
+                named = [c for c in consts if re.search(r'decision_variable::Kind::\w+', c)]
+                is_int = (named and all(re.search(r'decision_variable::Kind::Integer\b', c) for c in named)) or \
+                         (not named and [T.f64_const(c) for c in consts] == [float(INTEGER)])
+                if is_int: ktests += bool_tests(body, st['dst']['l'], rv['op'] == 'Eq', 'kind == Integer as i32')
     decide(R + '.guards/kind', ktests, 'no test `kind() == Integer` found', 'test `kind() == Integer` does not keep other kinds away from the encoding')
     # ---- guard 3: bound present
     btests = []; bsrc = 0
@@ -524,11 +543,22 @@ def check(ctx):
     finite_tests = {}
     for side in ('lower', 'upper'):
         ts = []
+        is_end = lambda o: (lambda fs: (BOUND, side) in fs and (DV, 'bound') in fs)(xpath(body, o))
         for c in body.calls:
-            if c.item == 'is_finite' and 'f64' in c.name:
-                fs, root, _ = T.access_path(body, c.args[0])
-                if (BOUND, side) in fs and (DV, 'bound') in fs:
-                    ts += bool_tests(body, c.dst['l'], True, 'bound.%s.is_finite()' % side)
+            # idioms that keep +-inf out (a NaN end is rejected by the empty-range guard: NaN >= 0 is false)
+            if 'f64' not in c.name or not c.args or not is_end(c.args[0]): continue
+            if c.item == 'is_finite': ts += bool_tests(body, c.dst['l'], True, 'bound.%s.is_finite()' % side)            # x.is_finite()
+            elif c.item == 'is_infinite': ts += bool_tests(body, c.dst['l'], False, '!bound.%s.is_infinite()' % side)    # !x.is_infinite()
+        for bi_, st_ in float_cmp_sites(body, ('Lt', 'Gt')):
+            # x.abs() < f64::INFINITY  |  f64::INFINITY > x.abs()
+            a_, b_ = st_['rv']['ops']
+            small, big = (a_, b_) if st_['rv']['op'] == 'Lt' else (b_, a_)
+            be = T.strip_wrappers(T.expr(body, big, depth=6))
+            if not (be[0] == 'const' and T.f64_const(be[1]) == float('inf')) or small['k'] not in ('copy', 'move'): continue
+            d_ = _whole_defs(body, root_of(body, small)[0])
+            ac = _callmap(body).get(d_[0][1]) if len(d_) == 1 and d_[0][0] == 'call' else None
+            if ac is not None and ac.item == 'abs' and 'f64' in ac.name and is_end(ac.args[0]):
+                ts += bool_tests(body, st_['dst']['l'], True, 'bound.%s.abs() < INFINITY' % side)
         finite_tests[side] = ts
         decide(R + '.guards/finite/' + side, ts, 'no `bound.%s.is_finite()` test guarding the encoding loop (an infinite bound makes the bit count unbounded)' % side,
                '`bound.%s.is_finite()` does not keep a non-finite bound away from the encoding loop' % side)
@@ -539,7 +569,7 @@ def check(ctx):
     # floor on upper, ceil on lower (not swapped)
     for c in body.calls:
         if c.item in ('floor', 'ceil') and 'f64' in c.name and c.bb not in blocks:
-            fs, root, _ = T.access_path(body, c.args[0])
+            fs = xpath(body, c.args[0])
             if (BOUND, 'upper') in fs:
                 ctx.check(c.item == 'floor', R + '.round/upper-floor', 'T-BRANCHFX', fn, 'upper bound is rounded with ' + c.item, body.site(c.bb))
             elif (BOUND, 'lower') in fs:
@@ -593,7 +623,7 @@ def check(ctx):
                 okb = d.get('lower') == 0.0 and d.get('upper') == 1.0
         ctx.check(okb, R + '.vars/bound-0-1', 'T-CONST', fn, 'bound of the new variables is not Some([0,1])', body.site(bi))
         idop = agg_field_operand(st, 'id')
-        ids = fresh_id(ctx, R + '.vars/fresh-id', body, idop, 'id of the new binary variable', body.site(bi))
+        ids = fresh_id(ctx, R + '.vars/fresh-id', body, idop, 'id of the new binary variable', body.site(bi), fn)
         # (expression tree, not the slice: id_base comes from `self`, which the loop itself mutates, so the slice of
         #  anything read from `self` contains the loop)
         ide = xexpr(body, idop)
@@ -603,25 +633,28 @@ def check(ctx):
         if ss is not None:
             ctx.check(nextc in ss.call_objs, R + '.vars/subscripts-bit', 'T-CARRY', fn, 'subscripts do not contain the bit index', body.site(bi))
         # the same id goes into the returned linear expression
-        src = root_of(body, idop)[0]
+        idc = canon(body, xexpr(body, idop), floops)
         for e, k, rst in body.ret_assignments():
             if k == 'ok' and e not in single_region:
-                # precise: Ok(Linear::new(terms, c)) where every element pushed onto `terms` is (the id given to the
-                # pushed variable, _) and c = ceil(lower)
+                # Ok(Linear::new(terms, c)): c = ceil(lower), and every element of `terms` is pushed, once per iteration of a
+                # loop, as (the id given to the variable of the same bit, _).  "The same id" = the same canonical
+                # expression (see canon): the same local, or recomputed from the same inputs in a loop over the same range
                 d = _whole_defs(body, root_of(body, rst['rv']['ops'][0])[0])
                 new = _callmap(body).get(d[0][1]) if len(d) == 1 and d[0][0] == 'call' else None
-                precise = False
+                precise = False; seen_ids = []
                 if new is not None and re.search(r'impl v1::Linear>::new(::<.*>)?$', new.name) and len(new.args) == 2:
                     tv = root_of(body, new.args[0], SEQ_TRANSPARENT, cross_proj=False)[0]
                     tp = pushes_into(body, tv) if tv is not None else []
-                    firsts = []
+                    okp = bool(tp)
                     for c in tp:
                         ta = agg_def(body, root_of(body, c.args[1])[0], 'tuple')
-                        firsts.append(root_of(body, ta[1]['rv']['ops'][0])[0] if ta and ta[1]['rv']['ops'] else None)
-                    precise = bool(firsts) and all(f is not None and f == src for f in firsts) and all(c.bb in blocks for c in tp) \
-                        and is_rounded(xexpr(body, new.args[1]), 'ceil', 'lower')
+                        tid = canon(body, xexpr(body, ta[1]['rv']['ops'][0]), floops) if ta and ta[1]['rv']['ops'] else None
+                        seen_ids.append(tid)
+                        lt = inner(c.bb)
+                        if tid != idc or lt is None or not T.must_pass(body, lt[2], {lt[1]}, {x.bb for x in tp if x.bb in lt[4]}): okp = False
+                    precise = okp and 'ITEM<' in idc and is_rounded(xexpr(body, new.args[1]), 'ceil', 'lower')
                 ctx.check(precise, R + '.result/uses-new-ids-and-lower', 'T-CARRY', fn,
-                          'the returned Linear is not `Linear::new(terms, ceil(lower))` with every term pushed as (id of the variable pushed in the same iteration, _)', body.site(e))
+                          'the returned Linear is not `Linear::new(terms, ceil(lower))` with every term pushed as (id of the variable of the same bit, _): variable id %s, term ids %s' % (idc, seen_ids), body.site(e))
     loop_must(ctx, R + '.loop/push-every-bit', body, loop, lambda c: c.bb in push_bbs, 'decision_variables.push')
     # the loop starts at bit 0
     rng = [st for bi, st in body.stmts() if st['rv']['k'] == 'agg' and st['rv']['adt'].endswith('ops::Range') and st['dst']['l'] in si.locals]
